@@ -335,7 +335,42 @@ def impl_two(op: str) -> str:
     return "ok " + runners[0].result() + "#" + runners[1].result()
 
 
+def _parse_qops(s):
+    out = []
+    if s != "~":
+        for x in s.split("."):
+            h, idx = x[1:].split("@")
+            out.append(("add" if x[0] == "+" else "remove", None if h == "-1" else Hdr(int(h), 0, 0), int(idx)))
+    return out
+
+
+def _ref_update_q(q, ops):
+    """reference for `_update_q`, written from its comment: leading removes that undo the newest queued entry (same block
+    and index) cancel against it; the rest is queued; popping an empty queue raises"""
+    q, ops = list(q), list(ops)
+    while ops and ops[0][0] == "remove":
+        if not q:
+            return None
+        if q[-1][1:] != ops[0][1:]:
+            break
+        q.pop()
+        ops.pop(0)
+    return q + ops
+
+
+def impl_q(op: str) -> str:
+    a = op.split(" ")
+    q = _Q(_parse_qops(a[1]))
+    try:
+        _update_q(q, _parse_qops(a[2]))
+    except Exception as e:  # noqa: BLE001
+        return "err " + type(e).__name__
+    return "ok " + _show_ops(q)
+
+
 def impl(op: str) -> str:
+    if op.startswith("c15q "):
+        return impl_q(op)
     if op.startswith("c15inv "):
         return impl_inv(op)
     if op.startswith("c15two "):
@@ -383,6 +418,11 @@ def _best_weight(anchor, delivered, hdrs, locked):
 
 
 def oracle(op: str, out: str):
+    if op.startswith("c15q "):
+        a = op.split(" ")
+        want = _ref_update_q(_parse_qops(a[1]), _parse_qops(a[2]))
+        want = "err IndexError" if want is None else "ok " + _show_ops(want)
+        return None if out == want else "_update_q gives %s, the reference %s" % (out, want)
     if op.startswith("c15inv ") and out.startswith("ok"):
         for i, o in enumerate([] if out == "ok ~" else out[3:].split("|")):
             if o.startswith("err") or o == "outside":
@@ -512,6 +552,8 @@ KNOWN: dict = {}
 
 
 def trivial(op: str) -> bool:
+    if op.startswith("c15q "):
+        return op.split(" ")[2] == "~"
     if op.startswith("c15inv "):
         return True   # a second look at a history already counted
     if op.startswith("c15two "):
@@ -525,6 +567,9 @@ def trivial(op: str) -> bool:
 
 
 def neighbours(op, rng):
+    if op.startswith("c15q "):
+        yield op
+        return
     if op.startswith("c15two "):
         yield op
         for w in (0, 1):
@@ -751,6 +796,19 @@ def gen(ctx, emit):
     if ctx.thorough:
         for _ in range(ctx.n(0, 3000)):
             E(random_history(rng, 60))
+    # `_update_q` on its own: queues and op lists of every shape, also those no history produces (a remove that does not
+    # undo the newest entry: the popped entry is put back; a remove on an empty queue: q.pop() raises)
+    def rand_ops(n, removes_first):
+        ops = []
+        for j in range(n):
+            kind = "-" if (removes_first and j < n // 2) or (not removes_first and rng.random() < 0.5) else "+"
+            ops.append("%s%d@%d" % (kind, rng.choice([-1, 1, 2, 3]), rng.randint(0, 3)))
+        return ".".join(ops) or "~"
+    for qs in ("~", "+1@0", "+1@0.+2@1", "-1@0"):
+        for os_ in ("~", "-1@0", "-2@1", "-2@1.-1@0", "-2@1.-1@0.+3@0", "-2@0", "-1@1", "+3@2", "+3@2.-3@2", "--1@0", "-2@1.-2@0.+1@1"):
+            emit("c15q %s %s" % (qs, os_.replace("--1", "--1")), "update-q")
+    for _ in range(ctx.n(1500, 20000)):
+        emit("c15q %s %s" % (rand_ops(rng.randint(0, 4), False), rand_ops(rng.randint(0, 5), rng.random() < 0.7)), "update-q")
     # two BlockChain objects in one process, fed interleaved, overlapping hashes with different ancestry
     for _ in range(ctx.n(4000, 60000)):
         ha, hb = rng.choice(pool), rng.choice(pool)
